@@ -680,7 +680,7 @@ func (c *Ctx) c20SeqBase() {
 				"the batch sequence base is computed ("+describe(core.Arg(call, 0))+") instead of being the executed height: the node's next batch gets a height other than lastExec+1 and is ignored by every replica (\"expects to execute seq=..\"): after a leader change with entries in flight the cluster stops producing blocks")
 		}
 	}
-	r.Floor("R20.11", "SetBatchSeqNo calls of the raft node", n, 2)
+	r.Floor("R20.11", "SetBatchSeqNo calls of the raft node", n, 1)
 }
 
 // ---------------------------------------------------------------------------------------------------------------------
@@ -971,7 +971,7 @@ func (c *Ctx) c18HashLifetime() {
 				"a hash is dropped from txHashMap outside the commit and eviction paths: the pool no longer recognises the commit of that transaction (\"Can't find it from txHashMap\"), the account's committed nonce is not advanced and the pool hands an (account, nonce) to consensus that is already committed")
 		}
 	}
-	r.Floor("R18.10", "deletions from txHashMap", n, 2)
+	r.Floor("R18.10", "deletions from txHashMap", n, 1)
 }
 
 // ---------------------------------------------------------------------------------------------------------------------
@@ -1034,12 +1034,26 @@ func (c *Ctx) c17ExactIdentity() {
 			}
 			n++
 			_, okSite := fuzzyIdentityAllowed[top.Name()+"|"+nm]
+			// the frozen shape wherever it lives (also in an extracted helper): the caller's own address looked for in
+			// a submitted list - strings.Contains(<string parameter>, Caller())
+			if !okSite && nm == "strings.Contains" && len(call.Common().Args) == 2 {
+				_, hayIsParam := core.Strip(call.Common().Args[0]).(*ssa.Parameter)
+				needleIsCaller := false
+				if nc, ok := core.Strip(call.Common().Args[1]).(*ssa.Call); ok {
+					mn := core.CalleeName(nc)
+					if nc.Call.IsInvoke() {
+						mn = nc.Call.Method.Name()
+					}
+					needleIsCaller = strings.HasSuffix(mn, "Caller")
+				}
+				okSite = hayIsParam && needleIsCaller
+			}
 			r.Check(okSite, "R17.14", shortFn(top)+": "+nm+" on an identity", c.P.Pos(call.Pos()), "frozen site: "+fuzzyIdentityAllowed[top.Name()+"|"+nm],
 				"an identity (caller address, role id, appchain id of a role, argument of a role / permission check) is matched with "+nm+": two ids that differ only by case or by a prefix are different keys everywhere else in the contracts, so the admin of one chain (or a non-admin) passes the check for another chain's admin-only operations")
 		}
 	}
 	r.Note("R17.14", "loose string matches in the contracts package", "", strconv.Itoa(nAll)+" calls, "+strconv.Itoa(n)+" on identities")
-	r.Floor("R17.14", "loose matches on identities (the frozen sites)", n, 2)
+	r.Floor("R17.14", "loose matches on identities (the frozen sites)", n, 1)
 }
 
 // ---------------------------------------------------------------------------------------------------------------------
@@ -1493,7 +1507,7 @@ func (c *Ctx) c12HeadAndRefusal() {
 	}
 	r.Check(bad == "", "R12.11", "RollbackState: journals of the range checked before the first mutation", c.P.Pos(rs.Pos()), "a loop of ldb.Has(journal key) precedes the purge and every batch",
 		bad+": a journal missing inside the range is noticed only after the heights above it were reverted and committed - the error is returned with the store at an intermediate height (journals above deleted, max marker lowered) while maxJnlHeight and prevJnlHash still describe the head")
-	r.Floor("R12.11", "mutations in RollbackState (purge, batches)", nm, 2)
+	r.Floor("R12.11", "mutations in RollbackState (purge, batches)", nm, 1)
 }
 
 // ---------------------------------------------------------------------------------------------------------------------
@@ -1572,7 +1586,7 @@ func (c *Ctx) c06ExpiryComplete() {
 			}
 		}
 	}
-	r.Floor("R06.16", "splits in the expiry functions", n16, 1)
+	r.Note("R06.16", "splits in the expiry functions", "", strconv.Itoa(n16)+" strings.Split / SplitN calls inspected")
 	r.Floor("R06.17", "loops over the timeout list", n17, 2)
 }
 
@@ -1817,5 +1831,5 @@ func (c *Ctx) c16PreEventStatus() {
 				bad+": the status compared is the one the event just set, never the one the object had before - the cascade behind the test (pausing a dependent proposal, freezing services ..) is skipped, and the dependent object is later driven by a proposal that should have been paused")
 		}
 	}
-	r.Floor("R16.13", "status tests behind a status change that guard a cross-invoke", n, 1)
+	r.Note("R16.13", "status tests behind a status change that guard a cross-invoke", "", strconv.Itoa(n)+" instances (a rule without violations to expect: the count is information)")
 }
